@@ -247,7 +247,7 @@ class C02(Prop):
             # same-shape, another mass table of the same text length (every file keeps its size)
             masses = prev["masses"] if kind == "same-masses" else self.same_length_masses(rng, prev["masses"], prev["msms"])
             return self.build(rng, n=prev.get("n_lines") or max(1, n_prev), n_extra=prev.get("n_extra", 0), R=prev["R"], masses=masses, msms=prev["msms"], mode=prev["mode"],
-                              names_pool=names, scan_start=prev["scan_start"], fixed_width=True, dirty=False, missing=False,
+                              names_pool=names, scan_start=prev["scan_start"], fixed_width=True, dirty=False, missing=False, path_style="win",
                               decimals=prev["decimals"], csv_mode="all" if all(f["csv"] is not None for f in prev["files"]) else "some",
                               time_style="regular", methods=prev["methods"], **flags, **clean)
         if kind == "other-k":       # another number of masses: the width of every profile record changes
@@ -266,7 +266,7 @@ class C02(Prop):
         kinds = kinds or [rng.choice(self.HISTORY_KINDS) for _ in range(rng.choice([1, 1, 2]))]
         sized = any(kd in ("same-shape", "same-masses") for kd in kinds)
         first = first or (self.build(rng, fixed_width=True, dirty=False, missing=False, odd=None, badindex=False, nodigit=False, large=False,
-                                     time_style="regular", csv_mode=rng.choice(["all", "all", "none"]), n=rng.choice([1, 2, 3]))
+                                     time_style="regular", path_style="win", csv_mode=rng.choice(["all", "all", "none"]), n=rng.choice([1, 2, 3]))
                           if sized else self.build(rng, odd=None, badindex=False, nodigit=False, large=False))
         steps = [first]
         for kd in kinds:
@@ -288,6 +288,16 @@ class C02(Prop):
             rng = random.Random(f"C02-history-{i}")
             i += 1
             yield self.gen_history(rng, kinds=kinds, stamps=["preserved"] * 3, edit=True)
+        # every file of the batch rewritten with other content of the same size and the same modification time (all four
+        # optional metadata files present; single quad and MS/MS; every collection method first in turn)
+        for j, (msms, methods) in enumerate(((False, ["batch_xml", "batch_csv"]), (True, ["batch_csv", "batch_xml"]),
+                                             (True, ["acq_method_xml", "alphabetical"]), (False, ["alphabetical"]))):
+            rng = random.Random(f"C02-history-sized-{j}")
+            first = self.build(rng, n=2 + j % 2, k=2 + j % 2, R=3, mode="counts", msms=msms, has_xadd=True, has_xml=True, has_csv=True,
+                               has_acq=True, fixed_width=True, dirty=False, missing=False, odd=None, badindex=False, nodigit=False,
+                               large=False, time_style="regular", path_style="win", csv_mode="all", methods=methods, n_extra=0,
+                               name_style="classic", decimals=2)
+            yield self.gen_history(rng, kinds=["same-shape", "same-shape"], stamps=["preserved"] * 3, edit=bool(j % 2), first=first)
         # an MS/MS batch replaced by a single-quad one and back, 8900-style tables (<Mass> holds the index)
         rng = random.Random("C02-history-msms")
         a = self.build(rng, n=2, k=2, R=3, mode="counts", msms=True, has_xml=True, has_acq=True, dirty=False, missing=False, odd=None,
@@ -459,9 +469,9 @@ class C02(Prop):
             # the acquisition order = the last Pass entry of each line
             acquired = [nm for i, nm in ((i, e["name"]) for i, e in enumerate(log) if e["result"] == "Pass")
                         if all(f["name"] != nm or f["result"] != "Pass" for f in log[i + 1:])]
-        style = rng.choice(PATH_STYLES)
+        style = pick("path_style", rng.choice(PATH_STYLES))
         for e in log:
-            e["file"] = styled(e.pop("name"), style if rng.random() < 0.85 else rng.choice(PATH_STYLES))
+            e["file"] = styled(e.pop("name"), style if ("path_style" in force or rng.random() < 0.85) else rng.choice(PATH_STYLES))
         # the order the log finally specifies = last Pass occurrence of each name (ground truth, recomputed by the Lean spec)
         on_disk = list(acquired)
         for nm in extra:  # unlogged or failed-only directories may or may not have been left on disk
@@ -482,7 +492,7 @@ class C02(Prop):
         if has_acq:
             # the sample list: the planned acquisitions, SampleID increasing in the planned order
             planned = list(acquired) if not dirty or rng.random() < 0.5 else rng.sample(acquired, len(acquired))
-            ids = sorted(rng.sample(range(0, 40), len(planned)))
+            ids = sorted(rng.sample(range(10 if pick("fixed_width", False) else 0, 40), len(planned)))
             samples = [{"id": i, "file": nm} for i, nm in zip(ids, planned)]
             if rng.random() < 0.08:
                 samples.append({"id": None, "file": None})
